@@ -5,6 +5,7 @@
   printed by `print_one`, a list of them, and the sorted / filtered lists of a whole state.
 -/
 import YashModel.Quote.ScriptLemmas
+import YashModel.Generated.ListingTables
 namespace YashModel.Quote
 open YashModel.Generated.QuoteTables
 open Listing
@@ -617,5 +618,26 @@ theorem quoted_name_array_rejected (n : List Char) (hn : strNeedsQuoting n = tru
       | lit c => exact absurd rfl (hnl c)
       | _ => simp [assignSplit, tildeFront, assignValue]
     simp [parseToks, hkw, hsp]
+
+/-! ### format strings of the printers -/
+
+/-- Rust `format!` restricted to `{}` placeholders: each is replaced by the next argument -/
+def fmtFill : List Char → List (List Char) → List Char
+  | [], _ => []
+  | '{' :: '}' :: r, a :: as => a ++ fmtFill r as
+  | c :: r, as => c :: fmtFill r as
+
+theorem fmtFill_nil (as : List (List Char)) : fmtFill [] as = [] := by
+  unfold fmtFill; rfl
+
+theorem fmtFill_hole (r : List Char) (a : List Char) (as : List (List Char)) :
+    fmtFill ('{' :: '}' :: r) (a :: as) = a ++ fmtFill r as := by
+  rw [fmtFill]
+
+theorem fmtFill_char (c : Char) (r : List Char) (as : List (List Char)) (h : c ≠ '{') :
+    fmtFill (c :: r) as = c :: fmtFill r as := by
+  rw [fmtFill]
+  intros
+  simp_all
 
 end YashModel.Quote
